@@ -276,11 +276,14 @@ def gen_spec(rng: random.Random, **kw) -> dict:
     pool = VAR_POOL_WIDE if rng.random() < 0.5 else VAR_POOL_SMALL
     vs = o.get("vars") or rng.sample(pool, min(nv, len(pool)))
     b = SpecBuilder(rng, o)
+    if o.get("parts"):
+        # reuse the decomposition (vtree) of another spec: the two circuits are compatible
+        b.parts = {frozenset(k): [list(p) for p in v] for k, v in o["parts"]}
     nout = o.get("nout") or rng.choice([1, 1, 1, 2, 3])
     kout = o.get("kout") or rng.choice(o["units"])
     outs = []
     for oi in range(nout):
-        sub = vs if (oi == 0 or rng.random() < 0.6) else rng.sample(vs, rng.randint(1, len(vs)))
+        sub = vs if (oi == 0 or o.get("full_outputs") or rng.random() < 0.6) else rng.sample(vs, rng.randint(1, len(vs)))
         r = b.region(sub)
         if b.units(r) != kout or rng.random() < 0.7:
             r = b.sum_over([r], kout, force_dense=True)
@@ -294,7 +297,10 @@ def gen_spec(rng: random.Random, **kw) -> dict:
     spec = {"layers": b.layers, "outputs": outs, "vars": sorted(vs),
             "states": {str(k): v for k, v in o["states"].items()},
             "continuous": sorted(o["continuous"])}
-    return prune_spec(spec)
+    out = prune_spec(spec)
+    if hasattr(b, "parts"):
+        out["parts"] = [[sorted(k), v] for k, v in b.parts.items()]
+    return out
 
 
 def prune_spec(spec: dict) -> dict:
